@@ -45,14 +45,18 @@ def canon(p):
     return [seen.setdefault(repr(v), len(seen)) for v in p]
 
 
+FOCUS = '{{"M", "A"}, {"A", "B", "C"}, {"B"}, {"M", "A", "B", "C"}}'
+
+
 def run_config(V, rng, tier, run_label, MV, AV, BV, CV, MAPS, flagsets):
     q = tier == 'quick'
     wd = E.workdir('c11')
     try:
-        mc = E.write_mc(wd, 'FeatureConstruction', {'MC_Flags': '{' + ', '.join(flagsets) + '}', 'MC_SubMaps': MAPS})
-        C = {'NRows': 3, 'MVals': MV, 'AVals': AV, 'BVals': BV, 'CVals': CV, 'SubMaps': '<- MC_SubMaps',
+        mc = E.write_mc(wd, 'FeatureConstruction', {'MC_Flags': '{' + ', '.join(flagsets) + '}', 'MC_SubMaps': MAPS,
+                                                     'MC_Focus': FOCUS if run_label == 'focus' else '{{"M", "A", "B", "C"}}'})
+        C = {'NRows': 3, 'MVals': MV, 'AVals': AV, 'BVals': BV, 'CVals': CV, 'SubMaps': '<- MC_SubMaps', 'FocusSets': '<- MC_Focus',
              'FlagSets': '<- MC_Flags', 'MissingTokens': '{""}', 'NControls': 9}
-        cfg = E.write_cfg(os.path.join(wd, 'mc.cfg'), constants=C, invariants=INVS + ['Emit'])
+        cfg = E.write_cfg(os.path.join(wd, 'mc.cfg'), constants=C, invariants=INVS + ['FocusKeepsOrder', 'Emit'])
         res = E.run_tlc(mc, cfg, timeout=2400, coverage=(q and run_label == 'plain'))
         E.require_ok(res, 'FeatureConstruction/' + run_label)
         V.add_tlc(res, 'FeatureConstruction/' + run_label)
@@ -61,23 +65,26 @@ def run_config(V, rng, tier, run_label, MV, AV, BV, CV, MAPS, flagsets):
             for a in ('Expand', 'Sub', 'Interact', 'Noise'):
                 if res.coverage.get(a, (0, 0))[0] == 0:
                     raise E.MachineryError(f'action {a} never taken')
-        cases = [(set(t[1]), t[3], t[4], [tuple(e) for e in t[2]]) for t in E.extract_tuples(res.stdout, 'CASE')]
+        cases = [(set(t[1]), t[3], t[4], [tuple(e) for e in t[2]], set(t[5]), t[6]) for t in E.extract_tuples(res.stdout, 'CASE')]
     finally:
         E.cleanup(wd)
     if not cases:
         raise E.MachineryError('no cases emitted')
     items = []
-    for flags, f0, f, submap in cases:
-        cols0 = [rname(c[0]) for c in f0]
+    for flags, f0, f, submap, focus, raw in cases:
+        cols0 = [rname(c[0]) for c in raw]
         # label position varies; the spec's frame lists it first
         order = cols0[1:]
         order.insert(rng.randrange(len(order) + 1), 'label')
-        data = {rname(c[0]): list(c[1]) for c in f0}
-        nrows = len(f0[0][1])
+        data = {rname(c[0]): list(c[1]) for c in raw}
+        nrows = len(raw[0][1])
         rows = [[data[c][r] for c in order] for r in range(nrows)]
         mapping = ';'.join(BASE[a] + ('->' if op == 'one' else '<->') + BASE[b] for op, a, b in submap)
         items.append({'columns': order, 'rows': rows,
-                      'args': {'heuristic': 'MI-numba-randomized', 'label_column': 'label', 'explode_multivalue_features': 'm' if 'multi' in flags else 'False',
+                      'kept': [rname(c[0]) for c in f0],
+                      'args': {'heuristic': 'MI-numba-randomized', 'label_column': 'label',
+                               'feature_set_focus': (None if focus == {'M', 'A', 'B', 'C'} else ','.join(sorted(BASE[x] for x in focus))),
+                               'explode_multivalue_features': 'm' if 'multi' in flags else 'False',
                                'subfeature_mapping': mapping or 'False', 'interaction_order': 2 if 'interact' in flags else 1,
                                'include_noise_baseline_features': 'True' if 'noise' in flags else 'False', 'combination_number_upper_bound': 10 ** 6}})
     chunk = 400
@@ -88,15 +95,16 @@ def run_config(V, rng, tier, run_label, MV, AV, BV, CV, MAPS, flagsets):
         if r is None or 'ok' not in r:
             V.violation(f'raises:chunk{ji}', f'compute_batch_ranking failed: {PC.failure_text(r)}', job['items'][0])
             continue
-        for (flags, f0, f, submap), item, ob in zip(cases[ji * chunk:(ji + 1) * chunk], job['items'], r['ok']):
+        for (flags, f0, f, submap, focus, raw), item, ob in zip(cases[ji * chunk:(ji + 1) * chunk], job['items'], r['ok']):
             key = f'rows={item["rows"]} columns={item["columns"]} flags={sorted(flags)} mapping={item["args"]["subfeature_mapping"]}'
             if flags:
                 nontriv += 1
             if 'error' in ob:
                 V.violation('raises:' + key, f'compute_batch_ranking raised {ob["error"]}', item)
                 continue
-            n0 = len(item['columns'])
-            if ob['columns'][:n0] != item['columns'] or any(ob['values'][c] != [row[i] for row in item['rows']] for i, c in enumerate(item['columns'])) or not ob['input_untouched']:
+            kept = [c_ for c_ in item['columns'] if c_ in item['kept']]          # focus keeps the label and the focused columns, in the data's order
+            n0 = len(kept)
+            if ob['columns'][:n0] != kept or any(ob['values'][c] != [row[item['columns'].index(c)] for row in item['rows']] for c in kept) or not ob['input_untouched']:
                 V.violation('additive:' + key, f'original columns/values/row order changed: columns {ob["columns"][:n0]}', item)
                 continue
             if ob['nrows'] != len(item['rows']) or any(v == 'DUPLICATE-COLUMN' or len(v) != len(item['rows']) for v in ob['values'].values()) or len(set(ob['columns'])) != len(ob['columns']):
@@ -167,11 +175,13 @@ def main():
     if q:
         runs = [('plain', '{"", "a", "a,b", "b-a"}', '{"a","b"}', '{"a","b"}', '{"x"}', MAPS_OLD, ['{"multi","sub","interact","noise"}', '{"multi"}', '{"sub"}']),
                 ('punctuated-tokens', '{"a.b", "axb", "c+", "c", "c+,c", "a|b", "a*"}', '{"a"}', '{"a","b"}', '{"x"}', MAPS_OLD, ['{"multi"}']),
-                ('mappings', '{"a"}', '{"a","b"}', '{"a","b"}', '{"x","y"}', MAPS_MULTI, ['{"sub"}'])]
+                ('mappings', '{"a"}', '{"a","b"}', '{"a","b"}', '{"x","y"}', MAPS_MULTI, ['{"sub"}']),
+                ('focus', '{"a", "a,b"}', '{"a","b"}', '{"a","b"}', '{"x"}', MAPS_OLD, ['{"interact"}', '{}'])]
     else:
         runs = [('plain', '{"", "a", "b", "a,b", "b-a", "c-"}', '{"a","b"}', '{"a","b"}', '{"x"}', MAPS_OLD, full),
                 ('punctuated-tokens', '{"a.b", "axb", "c+", "c", "c+,c", "a|b", "a*", "(a", "aa", "a.b-axb", "a"}', '{"a"}', '{"a","b"}', '{"x"}', MAPS_OLD, ['{"multi"}', '{"multi","interact"}']),
-                ('mappings', '{"a", "a,b"}', '{"a","b"}', '{"a","b"}', '{"x","y"}', MAPS_MULTI, ['{"sub"}', '{"sub","multi","interact"}'])]
+                ('mappings', '{"a", "a,b"}', '{"a","b"}', '{"a","b"}', '{"x","y"}', MAPS_MULTI, ['{"sub"}', '{"sub","multi","interact"}']),
+                ('focus', '{"a", "a,b", "b"}', '{"a","b"}', '{"a","b"}', '{"x","y"}', MAPS_OLD, ['{"interact"}', '{}', '{"noise"}'])]
     for run_label, MV, AV, BV, CV, MAPS, flagsets in runs:
         run_config(V, rng, tier, run_label, MV, AV, BV, CV, MAPS, flagsets)
     V.coverage['exhaustive'] = True
